@@ -249,11 +249,33 @@ func c11(r *core.Run) {
 			}
 			// returned txn carries the same id
 			idOK := false
-			for _, b := range fn.Blocks {
-				for _, in := range b.Instrs {
-					if st, ok := in.(*ssa.Store); ok {
-						if f, ok := core.FieldOf(st.Addr); ok && f == idF && st.Val == ssa.Value(fn.Params[1]) {
-							idOK = true
+			for _, h := range p.Helpers(fn) { // the transaction may be built by a constructor helper
+				for _, b := range h.Blocks {
+					for _, in := range b.Instrs {
+						if st, ok := in.(*ssa.Store); ok {
+							if f, ok := core.FieldOf(st.Addr); ok && f == idF {
+								if h == fn && st.Val == ssa.Value(fn.Params[1]) {
+									idOK = true
+								}
+								if prm, isP := st.Val.(*ssa.Parameter); isP && h != fn && prm.Parent() == h {
+									// the helper's parameter: what this method's calls of the helper pass for it
+									n, all := 0, true
+									for _, c := range p.CallersOf(h) {
+										if c.Parent() != fn {
+											continue
+										}
+										n++
+										for i, q := range h.Params {
+											if q == prm && (i >= len(c.Common().Args) || c.Common().Args[i] != ssa.Value(fn.Params[1])) {
+												all = false
+											}
+										}
+									}
+									if n > 0 && all {
+										idOK = true
+									}
+								}
+							}
 						}
 					}
 				}
